@@ -158,8 +158,14 @@ let judge_f op a got =
   let b = zi (base_of (List.nth a 0)) in
   let prec = z (List.nth a 2) in
   let r = List.tl (List.tl (List.tl a)) in
-  let x () = fv (List.nth r 0) (List.nth r 1) in
-  let y () = fv (List.nth r 2) (List.nth r 3) in
+  (* the harness builds every float operand through Repr::new, which strips the factors of the base from the significand
+     (3 * 3^-1 is stored as 1 * 3^0): the entry tests of the model (is_one, is_zero) must see the same normal form *)
+  let rec strip s e = if Zar.sign s <> 0 && Zar.sign (Zar.rem s b) = 0 then strip (Zar.div s b) (Zar.succ e) else (s, e) in
+  let norm v = match v with
+    | Fin (s, e) -> if Zar.sign s = 0 then Fin (Zar.zero, Zar.zero) else let (s', e') = strip s e in Fin (s', e')
+    | v -> v in
+  let x () = norm (fv (List.nth r 0) (List.nth r 1)) in
+  let y () = norm (fv (List.nth r 2) (List.nth r 3)) in
   let n2 () = z (List.nth r 2) in
   let k o x y n = KFloat (b, o, prec, x, y, n) in
   let int_prec n = Zar.max prec (Zar.max Zar.one (ndig b n)) in
